@@ -190,6 +190,33 @@ theorem retention_weakKey_refuted :
   refine ⟨[.newInst 0, .call 0, .dropInst 0, .gc], 0, ?_⟩
   decide
 
+/-- D91 (repaired): a getter that hands the bound method back as it is, stored under itself in the
+    weak-value dictionary (`insts[bm] = bm`), is retained for good — and the instance with it -/
+theorem retention_selfEntry_refuted :
+    ∃ (ops : List COp) (i : Nat),
+      i ∉ (crun .selfEntry ops).heldInst ∧ i ∉ (crun .selfEntry ops).heldWrap ∧
+      i ∈ ((crun .selfEntry ops).collect .selfEntry).alive .selfEntry := by
+  refine ⟨[.newInst 0, .get 0, .dropWrapper 0, .dropInst 0, .gc], 0, ?_⟩
+  decide
+
+/-- as after D91 (such a result is not stored): nothing is retained, for every history -/
+theorem no_retention_noStore (ops : List COp) (i : Nat)
+    (h1 : i ∉ (crun .noStore ops).heldInst) (h2 : i ∉ (crun .noStore ops).heldWrap) :
+    i ∉ ((crun .noStore ops).collect .noStore).alive .noStore := by
+  simp [CState.alive, CState.collect, h1, h2]
+
+theorem cstep_noStore_entries (s : CState) (op : COp) (h : s.entries = []) :
+    (cstep .noStore s op).entries = [] := by
+  cases op <;> simp [cstep, CState.collect, h] <;> split <;> simp [h]
+
+/-- … because the dictionary stays empty throughout -/
+theorem noStore_entries_empty (ops : List COp) : (crun .noStore ops).entries = [] := by
+  unfold crun
+  suffices ∀ (s : CState), s.entries = [] → (ops.foldl (cstep .noStore) s).entries = [] from this {} rfl
+  induction ops with
+  | nil => intro s h; simpa using h
+  | cons op ops ih => intro s h; exact ih _ (cstep_noStore_entries s op h)
+
 /-- while the caller still holds the instance or its wrapper, the instance is alive (no premature reclaim) -/
 theorem no_premature_reclaim (k : DictKind) (ops : List COp) (i : Nat)
     (h : i ∈ (crun k ops).heldInst ∨ i ∈ (crun k ops).heldWrap) :
